@@ -52,6 +52,7 @@ func runC19(c *Ctx) {
 			continue
 		}
 		c19Analyse(c, p)
+		c19CoordSpaces(c, p)
 	}
 }
 
@@ -562,4 +563,332 @@ func addBaseFields(p *Program, fn *ssa.Function, base ssa.Value, fields map[stri
 			}
 		}
 	}
+}
+
+// I3 coordinate spaces: in the functions that read an input image, every integer is either an
+// absolute image coordinate (derived from a Rectangle's Min/Max), a relative one (0-based: loop
+// counters from 0, Dx()/Dy(), lengths, strides, differences of two absolute values) or of unknown
+// kind (constants, anything else). Absolute + relative is absolute, absolute - absolute is relative.
+// Comparing a definitely absolute value with a definitely relative one, or subtracting an absolute
+// value from a relative one, mixes the two spaces: the code is right only for images whose bounds
+// start at the origin. Parameters and closure variables take the kind their call sites / bindings give.
+type cspace uint8
+
+const (
+	csAny cspace = iota
+	csAbs
+	csRel
+)
+
+func (a cspace) String() string { return [...]string{"unknown", "absolute", "relative"}[a] }
+
+func csJoin(a, b cspace) cspace {
+	if a == b {
+		return a
+	}
+	return csAny
+}
+
+func c19CoordSpaces(c *Ctx, p *Program) {
+	c.Rule("I3 coordinate spaces: in the encoder front end (root package and internal/lossy import code) no comparison relates a value that is definitely an absolute image coordinate (derived from Rectangle.Min/Max) to one that is definitely relative (0-based counters, Dx/Dy, differences of absolute values), and no absolute value is subtracted from a relative one: such code is correct only when the image's bounds start at the origin")
+	isRectPoint := func(t types.Type) bool {
+		if pt, ok := t.Underlying().(*types.Pointer); ok {
+			t = pt.Elem()
+		}
+		n, ok := t.(*types.Named)
+		return ok && n.Obj().Pkg() != nil && n.Obj().Pkg().Path() == "image" && (n.Obj().Name() == "Rectangle" || n.Obj().Name() == "Point")
+	}
+	var scope []*ssa.Function
+	for _, fn := range p.SrcFuncs() {
+		if fn.Pkg == nil || fn.Blocks == nil {
+			continue
+		}
+		pos := p.Pos(fn.Pos())
+		if strings.HasPrefix(pos, "encode.go") || strings.HasPrefix(pos, "internal/lossy/encode.go") {
+			scope = append(scope, fn)
+		}
+	}
+	tag := map[ssa.Value]cspace{}
+	bound := map[ssa.Value]cspace{}
+	boundSet := map[ssa.Value]bool{}
+	get := func(v ssa.Value) cspace {
+		switch v.(type) {
+		case *ssa.Parameter, *ssa.FreeVar:
+			if boundSet[v] {
+				return bound[v]
+			}
+			return csAny
+		}
+		return tag[v]
+	}
+	// parameter / free-variable bindings from call sites and closures (joined)
+	bind := func(v ssa.Value, t cspace) bool {
+		if !boundSet[v] {
+			boundSet[v] = true
+			bound[v] = t
+			return t != csAny
+		}
+		n := csJoin(bound[v], t)
+		if n != bound[v] {
+			bound[v] = n
+			return true
+		}
+		return false
+	}
+	eval := func(v ssa.Value) cspace {
+		switch x := v.(type) {
+		case *ssa.Const:
+			return csAny
+		case *ssa.Parameter, *ssa.FreeVar:
+			if boundSet[v] {
+				return bound[v]
+			}
+			return csAny
+		case *ssa.Field:
+			if isRectPoint(x.X.Type()) {
+				if bt, ok := x.Type().Underlying().(*types.Basic); ok && bt.Info()&types.IsInteger != 0 {
+					return csAbs
+				}
+			}
+		case *ssa.UnOp:
+			if x.Op == token.MUL {
+				if fa, ok := x.X.(*ssa.FieldAddr); ok {
+					if isRectPoint(fa.X.Type()) {
+						if bt, ok := x.Type().Underlying().(*types.Basic); ok && bt.Info()&types.IsInteger != 0 {
+							return csAbs
+						}
+					}
+					if fieldNameOf(fa.X.Type(), fa.Field) == "Stride" {
+						return csRel
+					}
+				}
+				if al, ok := x.X.(*ssa.Alloc); ok {
+					// local cell: join of the stored values
+					first := true
+					r := csAny
+					for _, u := range *al.Referrers() {
+						if st, ok := u.(*ssa.Store); ok && st.Addr == ssa.Value(al) {
+							if first {
+								r, first = get(st.Val), false
+							} else {
+								r = csJoin(r, get(st.Val))
+							}
+						}
+					}
+					return r
+				}
+				if fv, ok := x.X.(*ssa.FreeVar); ok && boundSet[fv] {
+					return bound[fv]
+				}
+			}
+		case *ssa.Call:
+			if cal := x.Call.StaticCallee(); cal != nil && cal.Signature.Recv() != nil && isRectPoint(cal.Signature.Recv().Type()) {
+				switch cal.Name() {
+				case "Dx", "Dy":
+					return csRel
+				}
+			}
+			if bi, ok := x.Call.Value.(*ssa.Builtin); ok && (bi.Name() == "len" || bi.Name() == "cap") {
+				return csRel
+			}
+			if bi, ok := x.Call.Value.(*ssa.Builtin); ok && (bi.Name() == "min" || bi.Name() == "max") && len(x.Call.Args) > 0 {
+				r := get(x.Call.Args[0])
+				for _, a := range x.Call.Args[1:] {
+					r = csJoin(r, get(a))
+				}
+				return r
+			}
+		case *ssa.Convert:
+			return get(x.X)
+		case *ssa.ChangeType:
+			return get(x.X)
+		case *ssa.Phi:
+			// a counter that starts at a constant and is only incremented by constants counts from
+			// the image's first row / column: relative
+			{
+				hasConst, counter := false, true
+				for _, e := range x.Edges {
+					if _, isC := e.(*ssa.Const); isC {
+						hasConst = true
+						continue
+					}
+					bo, ok := e.(*ssa.BinOp)
+					if !ok || (bo.Op != token.ADD && bo.Op != token.SUB) || bo.X != ssa.Value(x) {
+						counter = false
+						continue
+					}
+					if _, isC := bo.Y.(*ssa.Const); !isC {
+						counter = false
+					}
+				}
+				if hasConst && counter && len(x.Edges) >= 2 {
+					return csRel
+				}
+			}
+			first := true
+			r := csAny
+			for _, e := range x.Edges {
+				if e == ssa.Value(x) {
+					continue
+				}
+				if _, isC := e.(*ssa.Const); isC {
+					continue // a constant start value takes the kind of the other edges
+				}
+				if first {
+					r, first = get(e), false
+				} else {
+					r = csJoin(r, get(e))
+				}
+			}
+			return r
+		case *ssa.BinOp:
+			a, b := get(x.X), get(x.Y)
+			switch x.Op {
+			case token.ADD:
+				switch {
+				case a == csAbs && b != csAbs, b == csAbs && a != csAbs:
+					return csAbs
+				case a == csRel && b == csRel, a == csRel && b == csAny, a == csAny && b == csRel:
+					return csRel
+				}
+			case token.SUB:
+				switch {
+				case a == csAbs && b == csAbs:
+					return csRel
+				case a == csAbs:
+					return csAbs
+				case a == csRel && b != csAbs:
+					return csRel
+				}
+			case token.MUL, token.QUO, token.SHL, token.SHR:
+				if a == csRel && b != csAbs {
+					return csRel
+				}
+			}
+		}
+		return csAny
+	}
+	for round := 0; round < 12; round++ {
+		changed := false
+		for _, fn := range scope {
+			for _, b := range fn.Blocks {
+				for _, in := range b.Instrs {
+					if v, ok := in.(ssa.Value); ok {
+						if t := eval(v); t != tag[v] {
+							tag[v] = t
+							changed = true
+						}
+					}
+					// bindings
+					switch x := in.(type) {
+					case *ssa.Call:
+						args := x.Call.Args
+						var callee *ssa.Function
+						var binds []ssa.Value
+						if cal := x.Call.StaticCallee(); cal != nil {
+							callee = cal
+						} else if mc, ok := x.Call.Value.(*ssa.MakeClosure); ok {
+							callee = mc.Fn.(*ssa.Function)
+							binds = mc.Bindings
+						} else if ld, ok := x.Call.Value.(*ssa.UnOp); ok && ld.Op == token.MUL {
+							// a closure kept in a local variable
+							if al, ok := ld.X.(*ssa.Alloc); ok {
+								for _, u := range *al.Referrers() {
+									if st, ok := u.(*ssa.Store); ok && st.Addr == ssa.Value(al) {
+										if mc, ok := st.Val.(*ssa.MakeClosure); ok {
+											callee = mc.Fn.(*ssa.Function)
+											binds = mc.Bindings
+										}
+									}
+								}
+							}
+						}
+						if callee != nil && callee.Blocks != nil {
+							for i, a := range args {
+								if i < len(callee.Params) {
+									if bind(callee.Params[i], get(a)) {
+										changed = true
+									}
+								}
+							}
+							_ = binds
+						}
+					case *ssa.MakeClosure:
+						cf := x.Fn.(*ssa.Function)
+						for i, bv := range x.Bindings {
+							if i < len(cf.FreeVars) {
+								// the binding is the address of the captured variable: its contents' kind
+								t := csAny
+								if al, ok := bv.(*ssa.Alloc); ok {
+									first := true
+									for _, u := range *al.Referrers() {
+										if st, ok := u.(*ssa.Store); ok && st.Addr == ssa.Value(al) {
+											if first {
+												t, first = tag[st.Val], false
+											} else {
+												t = csJoin(t, tag[st.Val])
+											}
+										}
+									}
+								} else {
+									t = tag[bv]
+								}
+								if bind(cf.FreeVars[i], t) {
+									changed = true
+								}
+							}
+						}
+					}
+				}
+			}
+		}
+		if !changed {
+			break
+		}
+	}
+	n, cmpN := 0, 0
+	for _, fn := range scope {
+		k := 0
+		for _, b := range fn.Blocks {
+			for _, in := range b.Instrs {
+				bo, ok := in.(*ssa.BinOp)
+				if !ok {
+					continue
+				}
+				a, bb := get(bo.X), get(bo.Y)
+				switch bo.Op {
+				case token.LSS, token.LEQ, token.GTR, token.GEQ, token.EQL, token.NEQ:
+					if a != csAny && bb != csAny {
+						cmpN++
+					}
+					if (a == csAbs && bb == csRel) || (a == csRel && bb == csAbs) {
+						k++
+						n++
+						c.Func(FnName(fn))
+						c.Fail("I3-coord-space", fmt.Sprintf("%s:cmp#%d", FnName(fn), k), p.Pos(bo.Pos()),
+							fmt.Sprintf("%s compares a %s value with a %s one (%s): an index counted from the image's first row/column is tested against an absolute bound (or the reverse); for a sub-image view whose bounds do not start at the origin the test is wrong - rows are clamped or replicated at the wrong place, or pixels outside the bounds are read", fn.Name(), a, bb, p.ExprText(bo.Pos())))
+					}
+				case token.SUB:
+					if a == csRel && bb == csAbs {
+						k++
+						n++
+						c.Func(FnName(fn))
+						c.Fail("I3-coord-space", fmt.Sprintf("%s:sub#%d", FnName(fn), k), p.Pos(bo.Pos()),
+							fmt.Sprintf("%s subtracts an absolute coordinate from a relative index (%s): correct only for images whose bounds start at the origin", fn.Name(), p.ExprText(bo.Pos())))
+					}
+				}
+			}
+		}
+	}
+	if n == 0 {
+		c.Pass("I3-coord-space", "front end", "", fmt.Sprintf("%d comparisons between values of known coordinate kind, none mixes absolute and relative", cmpN))
+	}
+	c.Floor("I3-coord-space", cmpN, 3)
+}
+
+func evalOrTag(tag map[ssa.Value]cspace, v ssa.Value) cspace {
+	if _, isC := v.(*ssa.Const); isC {
+		return csAny
+	}
+	return tag[v]
 }
